@@ -22,7 +22,7 @@ ASSUMPTIONS = [
 ]
 MONITORS = "TransferResult vs os.walk listings of the destination before/after, per-oid upload log, source byte snapshot and audit-hook mutation log on the source"
 REQUIRED_COUNTERS = [
-    "index_across_sessions_rounds", "wide_directory_scenarios", "rounds_destination_of_other_md5_flavour", "ids_as/iterator", "ids_as/generator", "rounds_with_hardlink_option", "rounds_read_only_destination", "rounds_source_index_clear_fails", "rounds_source_vanishes", "corrupt_parseable_dir_objects", "rounds_with_index", "rounds_dest_with_state", "rounds", "rounds_with_failures", "rounds_with_preexisting", "rounds_missing_both_sides", "rounds_verify_corrupt_source",
+    "rounds_status_hook_returns_a_value", "index_across_sessions_rounds", "wide_directory_scenarios", "rounds_destination_of_other_md5_flavour", "ids_as/iterator", "ids_as/generator", "rounds_with_hardlink_option", "rounds_read_only_destination", "rounds_source_index_clear_fails", "rounds_source_vanishes", "corrupt_parseable_dir_objects", "rounds_with_index", "rounds_dest_with_state", "rounds", "rounds_with_failures", "rounds_with_preexisting", "rounds_missing_both_sides", "rounds_verify_corrupt_source",
     "transferred_objects_checked", "source_snapshots_compared", "rounds_expanded", "rounds_local_dest", "rounds_remote_dest",
 ]
 
@@ -282,6 +282,19 @@ def run_shard(ctx):
                             if os.path.exists(pth):
                                 os.chmod(pth, 0o644)
                                 os.unlink(pth)
+                if vs_hook is None and rng.random() < 0.3:
+                    # a status hook that only looks, but returns something: the hook's return value carries no meaning (the library's
+                    # own hook returns None), so the transfer must do - and report - the same whatever comes back
+                    from dvc_data.hashfile.status import CompareStatusResult as _CSR
+
+                    back = rng.choice(["False", "True", "bool(missing)", "empty-status", "same-status", "status-without-new"])
+                    info["status_hook_returns"] = back
+                    res.count("rounds_status_hook_returns_a_value")
+                    res.count(f"status_hook_returns/{back}")
+
+                    def vs_hook(st_, back=back):
+                        return {"False": False, "True": True, "bool(missing)": bool(st_.missing), "empty-status": _CSR(set(), set(), set(), set()),
+                                "same-status": st_, "status-without-new": _CSR(set(st_.ok), set(st_.missing), set(), set(st_.deleted))}[back]
                 # option / fault combinations on top of the round
                 hardlink = rng.random() < 0.35
                 info["hardlink"] = hardlink
